@@ -480,7 +480,7 @@ class Run:
             self._clone(step)
             return
         if act == "construct":
-            self.other_objs = render.provider_objects(self.spec, self.mod)
+            self.other_objs = render.provider_objects(self.spec, self.mod, role="other")
             if step.get("share"):
                 self.other_objs[step["share"]] = self.objs[step["share"]]
                 self.shared_provider = step["share"]
